@@ -439,7 +439,8 @@ fn gen_sim_spec(rng: &mut Xoroshiro128StarStar, mix: bool) -> SimSpec {
     let multi = rng.gen::<f64>() < 0.4;
     let na = if multi { rng.gen_range(1..4) } else { 1 };
     let ticks: Vec<u32> = (0..na).map(|_| [1u32, 2, 5, 10][rng.gen_range(0..4)]).collect();
-    let step = [4u64, 16, 100, 1000][rng.gen_range(0..4)];
+    // step sizes 1 and 2 give over-full steps (more instructions than time units)
+    let step = [1u64, 2, 4, 16, 100, 1000][rng.gen_range(0..6)];
     let n_agents = rng.gen_range(1..5);
     let mut agents = Vec::new();
     let mut next_trader = 100u32;
@@ -504,13 +505,14 @@ fn sim_gen(m: &HashMap<String, String>) {
         other.seed = other.seed.wrapping_add(1);
         let e = run_sim(&other, false, false);
         let f = run_sim_manual(&spec);
+        let g = bourse_verif_harness::sim::run_sim_moved(&spec);
         if !mix {
             println!("H sim{}-{}-{} {} sim {}", if mix { "mix" } else { "rand" }, seed, i, if mix { "mix" } else { "rand" }, spec.line());
             println!("I r=u sh=ok perm=- rngck=1 n=0");
             println!("O run");
             println!("I {}", a);
         }
-        println!("D {:016x} progress={:016x} hand={:016x} again={:016x} otherseed={:016x} manual={:016x} panic={} {}", fnv64(&a), fnv64(&b), fnv64(&c), fnv64(&d), fnv64(&e), fnv64(&f),
+        println!("D {:016x} progress={:016x} hand={:016x} again={:016x} otherseed={:016x} manual={:016x} moved={:016x} panic={} {}", fnv64(&a), fnv64(&b), fnv64(&c), fnv64(&d), fnv64(&e), fnv64(&f), fnv64(&g),
                  if a.starts_with("r=PANIC") { 1 } else { 0 }, spec.line());
     }
 }
